@@ -10,7 +10,7 @@ Ltac Zify.zify_post_hook ::= Z.div_mod_to_equations.
 
 (* after c_run: (ret, upd (upd buf 0 a) 1 b …) = (len, store buf 0 [a'; b'; …]) *)
 Ltac finish_put :=
-  cbn [app]; rewrite <- upds_store by (cbn [length]; lia); cbn [upds];
+  try land_to_mod; cbn [app]; rewrite <- upds_store by (cbn [length]; lia); cbn [upds];
   apply cok_pair_eq; [cbn [length]; lia|];
   repeat (apply upd_eq3; [|lia|lia]); reflexivity.
 
